@@ -357,9 +357,12 @@ static int
 tv2ms(const struct timeval * tv)
 {
 
-	/* Avoid integer overflow. */
+	/*
+	 * Avoid integer overflow; if the time is too long for poll(2), wait
+	 * for as many whole seconds as fit -- never for longer than ${tv}.
+	 */
 	if (tv->tv_sec >= INT_MAX / 1000)
-		return (INT_MAX);
+		return ((INT_MAX / 1000) * 1000);
 
 	return ((int)(tv->tv_sec * 1000 + (tv->tv_usec + 999) / 1000));
 }
